@@ -1,13 +1,15 @@
 """C02 — precedence and left associativity: grammar level chain, operator classes per level, left fold in term(), parentheses."""
 import re
-from collections import defaultdict
 from lib.facts import CallGraph, find, is_node, path_of, fns_in_type, render, last_seg, walk
 from lib.mirview import View, callee
 from lib.provenance import Prov, param_names
 from lib.synflow import SEQ_VIEWS, bind_call, inits_of, mentions, pat_idents, pattern_bodies, peel
 
-TECHNIQUE = ("grammar-level chain read from the generic arguments of the nom combinator calls in the MIR (many0(pair(OP, cut(NEXT)))), operator-class "
-             "sets from MIR aggregates of the operator parsers, left-fold shape of term() and the parenthetical arms from the expanded syntax")
+TECHNIQUE = ("grammar-level chain from the MIR of the parser crate: a level is a fn holding one repetition (nom many0 / fold_many0 whose argument type names the "
+             "operator parsers and operand parsers - identified by their signature - or a hand-written parse loop), in its own body or in a helper / closure it "
+             "delegates to (lib/mirview.View); operator-class sets from aggregates and constructor values in the operator parsers' views; left-fold shape of "
+             "term() from the expanded syntax with roles assigned by provenance (components of the &Term parameter), callee and position, followed into helper "
+             "fns the loop hands (accumulator, rhs) to; the parenthetical case as match arm or if-let")
 EXPLANATION = (
     "Decides C02 as a statement about grammar shape: (R1) starting at `formula`, every level is `next (op next)*` with the SAME next level on both sides "
     "(so grouping within a level is iterative/left and a level never recurses into itself or a looser level); (R2) the operator classes per level, from "
@@ -34,54 +36,118 @@ def parses(b, node):
     return is_parser(b) and ("mech_core::nodes::%s)" % node) in b.locals[0]
 
 
+REPEAT = re.compile(r"^nom::multi::(many0|fold_many0)$")
+INDIRECT = re.compile(r"^core::ops::function::Fn(Mut|Once)?::call(_mut|_once)?$")
+
+
+def crate_fns_in(B, type_str, depth=2):
+    """crate fns named inside a (combinator / closure) type, looking into the crate's own closures that the type contains:
+    `many0(pair(op, cut(next)))`, `many0(tuple((op, cut(next))))` and `many0(|i| { .. op(i) .. next(i) .. })` all name op and next"""
+    out, todo, seen = [], [f for f in fns_in_type(type_str) if f.startswith("mech_syntax::")], set()
+    for _ in range(depth + 1):
+        nxt = []
+        for f in todo:
+            if f in seen:
+                continue
+            seen.add(f)
+            if "{closure#" in f:
+                if f in B:
+                    nxt.extend(m for m in B[f].mentioned_fns() if m.startswith("mech_syntax::"))
+            else:
+                out.append(f)
+        todo = nxt
+    return out
+
+
+def cycle_blocks(b):
+    """blocks of a MIR body that lie on a CFG cycle (normal edges)"""
+    out = set()
+    for i in range(len(b.blocks)):
+        if b.blocks[i]["cl"]:
+            continue
+        if i in b.reachable_from(b.succ(i)):
+            out.add(i)
+    return out
+
+
+def has_parse_loop(B, b):
+    """a hand-written repetition: a CFG cycle that applies a parser (directly, through a parameter or a fn pointer)"""
+    cyc = cycle_blocks(b)
+    for i, t in b.calls():
+        if i in cyc:
+            c = callee(t)
+            if "fp" in t or INDIRECT.match(t["tf"]) or is_parser(B.get(c)):
+                return True
+    return False
+
+
 def level_info(B, b):
-    """for a grammar level body: (left operand callee, [(op parser fns, next fn)] from pair(OP, cut(NEXT)) inside many0).
-    The left operand is the Factor parser the body calls directly (helpers with another signature - e.g. an extracted
-    `fold(first, rest)` - are not operands, wherever they sit in the block order)."""
+    """for a grammar level body: (left operand callee, [(op parser fns, next fns)] per repetition, number of repetitions).
+    The left operand is the Factor parser the body calls directly outside the repetition (helpers with another signature - e.g. an
+    extracted `fold(first, rest)` - are not operands, wherever they sit in the block order). A repetition is a nom `many0` /
+    `fold_many0` whose parser argument's TYPE names the operator parsers (fns returning FormulaOperator) and the right operand
+    parsers (fns returning Factor) - whichever of pair / tuple / closure glues them together - or a hand-written loop that calls them."""
+    cyc = None
     first = None
+    reps = []
+    nrep = 0
+    for i, t in b.calls():
+        if REPEAT.match(callee(t)):
+            nrep += 1
+            fns = crate_fns_in(B, " ".join(t["ga"]))
+            ops = [f for f in fns if parses(B.get(f), "FormulaOperator")]
+            nxt = [f for f in fns if parses(B.get(f), "Factor")]
+            if ops and nxt:
+                reps.append((ops, nxt))
+    if not nrep:
+        cyc = cycle_blocks(b)
+        used = set()
+        for i, t in b.calls():
+            if i in cyc:
+                used.add(callee(t))
+                for g in t.get("ga", []):
+                    used.update(fns_in_type(g))
+                for a in list(t["args"]) + ([t["fp"]] if "fp" in t else []):
+                    if isinstance(a, dict) and "fn" in a:
+                        used.update(fns_in_type(a["fn"]))
+        ops = sorted(f for f in used if parses(B.get(f), "FormulaOperator"))
+        nxt = sorted(f for f in used if parses(B.get(f), "Factor"))
+        if ops and nxt:
+            nrep = 1
+            reps.append((ops, nxt))
     for i, t in b.calls():
         c = callee(t)
-        if c.startswith("mech_syntax::") and parses(B.get(c), "Factor"):
+        if c.startswith("mech_syntax::") and parses(B.get(c), "Factor") and not (cyc and i in cyc):
             first = c
             break
-    pairs = []
-    many = [t for i, t in b.calls() if callee(t).startswith("nom::multi::many0") and "closure" not in callee(t)]
-    for i, t in b.calls():
-        c = callee(t)
-        if c == "nom::sequence::pair":
-            ga = t["ga"]
-            ops = fns_in_type(ga[-2])
-            nxt = fns_in_type(ga[-1])
-            ops = [o for o in ops if o.startswith("mech_syntax::")]
-            cutn = [n for n in nxt if n.startswith("mech_syntax::")]
-            has_cut = "nom::combinator::cut" in ga[-1]
-            pairs.append((ops, cutn, has_cut))
-    return first, pairs, len(many)
+    return first, reps, nrep
 
 
 def analyse_level(B, cur):
-    """-> None when `cur` is not a repetition level, else {left, ops, right, npairs, nmany, via}.
-    Direct form: the body itself holds many0(pair(OP, cut(NEXT))) - operands are read positionally from the generic arguments.
-    Delegated form: the repetition sits in a closure or in a helper of the crate that `cur` calls (`level(input, NEXT, OP)`,
-    `level(NEXT, OP)(input)`, fn pointers, generics or `impl Fn`): the operand parsers are the Factor parsers that flow into the
-    view of `cur` (its body, closures and non-parser helpers). With exactly ONE Factor parser in the view both sides of the
-    repetition necessarily use it; with more than one the positions cannot be told apart here and `left` stays None (fail closed)."""
+    """-> None when `cur` is not a repetition level, else {left, ops, right, nrep, via}.
+    Direct form: the body itself holds the repetition - operands are read from the types / calls of the repetition (level_info).
+    Delegated form: the repetition sits in a helper of the crate that `cur` calls (`level(input, NEXT, OP)`, `level(NEXT, OP)(input)`,
+    fn pointers, generics or `impl Fn`): the operand parsers are the Factor parsers that flow into the view of `cur` (its body,
+    closures and non-parser helpers). With exactly ONE Factor parser in the view both sides of the repetition necessarily use it;
+    with more than one the positions cannot be told apart here and `left` stays None (fail closed)."""
     b = B[cur]
-    first, pairs, nmany = level_info(B, b)
-    if pairs:
-        ops, cutn, _ = pairs[0]
-        return {"left": first, "ops": ops, "right": cutn, "npairs": len(pairs), "nmany": nmany, "via": None}
+    first, reps, nrep = level_info(B, b)
+    if reps:
+        ops, nxt = reps[0]
+        return {"left": first, "ops": ops, "right": sorted(set(nxt)), "nrep": nrep, "nlevel": len(reps), "via": None}
     V = View(B, cur, stop=is_parser)
     if len(V.bodies) < 2:
         return None
-    npairs = sum(1 for _b, _i, t in V.calls() if callee(t) == "nom::sequence::pair")
-    nmany = sum(1 for _b, _i, t in V.calls() if callee(t).startswith("nom::multi::many0") and "closure" not in callee(t))
-    if not npairs or not nmany:
+    nrep = sum(1 for _b, _i, t in V.calls() if REPEAT.match(callee(t)))
+    nrep += sum(1 for vb in V.bodies if has_parse_loop(B, vb))
+    if not nrep:
         return None
     ment = V.mentioned()
     nexts = sorted(m for m in ment if parses(B.get(m), "Factor"))
     ops = sorted(m for m in ment if parses(B.get(m), "FormulaOperator"))
-    return {"left": nexts[0] if len(nexts) == 1 else None, "ops": ops, "right": nexts, "npairs": npairs, "nmany": nmany, "via": sorted(V.helpers)}
+    if not nexts or not ops:
+        return None
+    return {"left": nexts[0] if len(nexts) == 1 else None, "ops": ops, "right": nexts, "nrep": nrep, "nlevel": 1, "via": sorted(V.helpers)}
 
 
 def run(F, rep, tier):
@@ -112,8 +178,8 @@ def run(F, rep, tier):
         chain.append(cur)
         lvl = cur.split("::")[-1]
         nxt, ops, cutn = info["left"], info["ops"], info["right"]
-        rep.check(info["npairs"] == 1 and info["nmany"] == 1, "C02-R1", "%s:shape" % len(chain),
-                  "level %s is not a single `many0(pair(op, next))` repetition (pairs=%d, many0=%d)" % (lvl, info["npairs"], info["nmany"]), B[cur].where())
+        rep.check(info["nrep"] == 1 and info["nlevel"] == 1, "C02-R1", "%s:shape" % len(chain),
+                  "level %s is not a single `many0(pair(op, next))` repetition (repetitions=%d, of which operator/operand repetitions=%d)" % (lvl, info["nrep"], info["nlevel"]), B[cur].where())
         rep.check(len(cutn) == 1 and cutn[0] == nxt, "C02-R1", "level%d:same-next-both-sides" % len(chain),
                   "level %s parses its left operand with %s but its right operands with %s: operators of this level no longer group left-to-right at one level (e.g. a ^ b ^ c parses as a ^ (b ^ c))" % (lvl, nxt, cutn),
                   B[cur].where(), sample={"level": cur, "left": nxt, "ops": ops, "right": cutn})
